@@ -23,6 +23,8 @@ def run(ctx):
     ctx.guard(reiterable, ctx)
     from . import c10 as _c10
     ctx.shared(_c10.typecase, ctx, ['xtuml.meta'], 'C10-TYPECASE')
+    from . import c12 as _c12
+    ctx.shared(_c12.atomic, ctx)       # what a rejected input leaves in the loader shows up in every later build
     ctx.assume('user code that mutates Association.source_keys / target_keys in place is outside the listed changes')
     return ('Escape classification of every statement-field argument in the populate_* passes (copied vs stored by reference, '
             'one call level deep), repository-wide scan for in-place mutators of reference-stored fields, freshness of every '
